@@ -188,7 +188,7 @@ func genResponse(t *rapid.T, p *Pkg, info implInfo, docs []DocResponse) (reflect
 		case "Body":
 			if sf.Type == readerType || sf.Type == rcType {
 				raw = []byte(rapid.StringN(0, 60, 240).Draw(t, "rawbody"))
-				f.Set(reflect.ValueOf(io.NopCloser(bytes.NewReader(raw))))
+				f.Set(reflect.ValueOf(RawBodyReader(raw, rapid.IntRange(0, 2).Draw(t, "raw_reader_shape"))))
 				continue
 			}
 			g.Ctx = "json"
@@ -628,7 +628,7 @@ func CheckC10(p *Pkg, e *Env, r *res.Result) {
 			in.Respond = func(c *Call) reflect.Value {
 				// a fresh reader per call (the value is read once by Write)
 				if raw != nil {
-					v.FieldByName("Body").Set(reflect.ValueOf(io.NopCloser(bytes.NewReader(raw))))
+					v.FieldByName("Body").Set(reflect.ValueOf(RawBodyReader(raw, len(raw))))
 				}
 				return v
 			}
